@@ -214,6 +214,11 @@ func (a *asyncFifoRetryImpl) retry(ctx context.Context) (breakLoop bool) {
 			if errors.Is(err, storage.ErrUncertainResult) {
 				state = retryUnknownPut
 			}
+			if !errors.Is(err, storage.ErrCASFailed) {
+				// the rewrite may not have landed while the uncertain operation may have:
+				// keep the event at the head of the queue and check it again in the next tick
+				return true
+			}
 		}
 	}
 
